@@ -2330,3 +2330,199 @@ Definition app_ft : app :=
   mkApp [nd "root" [IHalt; IInCmp (s2b "foo") (s2b "1")]; nd "foo" [IHalt; IInCmp (s2b "_") (s2b "0")]; catch_node]
         [(s2b "root", s2b "root"); (s2b "foo", s2b "foo"); (s2b "_catch", s2b "catch")] [] [].
 Definition cfg_ft : config := mkCfg 0 [] 1 0 [] [] false (Some [fr "hello" []; fr "blocked" [6]; fr "again" []]).
+
+Lemma run_move_root_full : forall fuel rs sep lang root v x code,
+  wf_sym root -> valid_sym_b root = true ->
+  getf (v_st v) FLAG_TERMINATE = false -> s_path (v_st v) = [] ->
+  rs_code rs root = Ok (x :: code) ->
+  run (S fuel) rs sep lang (encode (IMove root)) v
+  = run fuel rs sep (pre_lang lang (v_st v)) (x :: code) (at_root rs sep root v)
+  /\ s_path (v_st (at_root rs sep root v)) = [root] /\ s_idx (v_st (at_root rs sep root v)) = 0
+  /\ v_ca (at_root rs sep root v) = cache_push (v_ca v).
+Proof.
+  intros fuel rs sep lang root v x code H1 H2 H3 H4 H5.
+  destruct (at_root_facts rs sep root v) as (F1 & F2 & F3 & _).
+  split; [apply run_move_root; assumption|]. auto.
+Qed.
+
+(* ---- witness terms used by props/C06.v and props/C20.v ------------------------------------------ *)
+Definition st_term : state := store_st p_term.
+Definition ca_term : cache := store_ca p_term.
+Definition st_c : state := setf (set_path_idx (new_state 2) [s2b "root"] 0) 8.
+Definition v_c : vmst := mkVm st_c (cache_push (new_cache 0)) (new_vm_page 0 []) [] [] false.
+Definition rs_greedy (set reset : list N) : rsrc :=
+  app_rsrc (mkApp [] [] [] [(s2b "gg", [mkFres (s2b "x") false 0 set reset false])]).
+Definition g_st := store_st p_graceful.
+Definition g_ca := store_ca p_graceful.
+Definition g_run :=
+  run 100 rs_graceful (c_sep cfg_graceful) (s_lang g_st) (prep_code cfg_graceful g_st)
+      (mkVm (set_code (prep_state cfg_graceful g_st (s2b "1")) []) g_ca
+            (new_vm_page (c_out cfg_graceful) (c_sep cfg_graceful)) (pw_w p_graceful) (pw_log p_graceful) false).
+Definition g_v1 := fst (fst g_run).
+Definition g_render := vm_render 100 rs_graceful (c_sep cfg_graceful) (s_lang (v_st g_v1)) (exiting_vm g_v1).
+Definition g_v' := fst g_render.
+Definition a_st := store_st p_abn.
+Definition a_ca := store_ca p_abn.
+Definition a_run :=
+  run 100 rs_abn (c_sep cfg_term) (s_lang a_st) (prep_code cfg_term a_st)
+      (mkVm (set_code (prep_state cfg_term a_st (s2b "1")) []) a_ca
+            (new_vm_page (c_out cfg_term) (c_sep cfg_term)) (pw_w p_abn) (pw_log p_abn) false).
+Definition cfg_graceful_small : config := mkCfg 8 [] 2 100 [] [] false None.
+
+(* ---- refutations for the entry-function class (K-C20-first / K-C07-first) ------------------------ *)
+Lemma blocked_refuted_first :
+  exists rs c p input st ca,
+    c_first c <> None /\ pw_store p = Some (st, ca)
+    /\ getf st FLAG_TERMINATE = true /\ getf st FLAG_DIRTY = false
+    /\ accepted_b input = true /\ reset_req c input = false
+    /\ r_out (snd (request_persisted 100 rs c p input)) = s2b "t"
+    /\ r_cont (snd (request_persisted 100 rs c p input)) = false
+    /\ pw_store (fst (request_persisted 100 rs c p input)) = pw_store p.
+Proof.
+  exists rs_term, cfg_term_first, p_term, (s2b "0"), st_term, ca_term.
+  vm_compute. repeat split; try reflexivity. discriminate.
+Qed.
+
+Lemma terminated_refuted_first :
+  exists rs c p i1 i2,
+    c_first c <> None /\ accepted_b i1 = true /\ accepted_b i2 = true
+    /\ reset_req c i1 = false /\ reset_req c i2 = false
+    /\ (let '(p1, r1) := request_persisted 100 rs c p i1 in
+        let '(p2, r2) := request_persisted 100 rs c p1 i2 in
+        r_cont r1 = false /\ r_exec r1 = SOk /\ r_out r1 = s2b "blocked"
+        /\ pw_store p1 = pw_store p
+        /\ r_cont r2 = true /\ r_out r2 <> []
+        (* instructions ran during the second request *)
+        /\ existsb (fun e => match e with EvInstr op => op =? op_INCMP | _ => false end)
+                   (firstn (List.length (pw_log p2) - List.length (pw_log p1)) (pw_log p2)) = true).
+Proof.
+  exists (app_rsrc app_ft), cfg_ft, (fst (requests 100 (app_rsrc app_ft) cfg_ft pw0 [[]])), (s2b "1"), (s2b "0").
+  vm_compute. repeat split; try reflexivity; discriminate.
+Qed.
+
+(* ======================================================================================== *)
+(* 16. TERMINATE set but DIRTY still set in the stored session (finding K-C06-dirty)           *)
+(* ======================================================================================== *)
+(* A request that fails in Exec AFTER external code has set TERMINATE is saved without Flush
+   having run: the stored session has TERMINATE and DIRTY.  The next request is blocked in
+   every respect but one: Flush renders the current page (template and menu lookups, output)
+   and clears DIRTY.  From then on the strict theorem applies. *)
+Definition is_render (e : ev) : bool := match e with EvRender _ _ _ => true | _ => false end.
+
+Lemma vm_render_terminated_log : forall fuel rs sep lang v v' r,
+  getf (v_st v) FLAG_TERMINATE = true -> vm_render (S fuel) rs sep lang v = (v', r) ->
+  exists l, v_log v' = l ++ v_log v /\ forallb is_render l = true /\ v_taint v' = v_taint v.
+Proof.
+  intros fuel rs sep lang v v' r Ht H. unfold vm_render in H.
+  destruct (negb (getf (v_st v) FLAG_DIRTY)); [injection H as <- _; exists []; auto|].
+  cbv zeta in H. cbn [v_st vset_st] in H.
+  destruct (where_sym _) as [|x l]; [injection H as <- _; exists []; auto|].
+  destruct (page_render _ _ _ _ _ _) as [r0 pg'].
+  assert (Hdone : forall r1,
+     (vlog (vset_pg (vset_st v (resetf (v_st v) FLAG_DIRTY)) pg') (EvRender (x :: l) (s_idx (resetf (v_st v) FLAG_DIRTY)) lang), r1) = (v', r) ->
+     exists l0, v_log v' = l0 ++ v_log v /\ forallb is_render l0 = true /\ v_taint v' = v_taint v).
+  { intros r1 E. injection E as <- _. eexists [_]. cbn. auto. }
+  destruct r0 as [o|e|n]; try (eapply Hdone; exact H).
+  destruct e; try (eapply Hdone; exact H).
+  rewrite run_terminate_blocks in H.
+  2:{ cbn [v_st vset_pg vlog vset_st]. rewrite getf_resetf_other by (vm_compute; discriminate). exact Ht. }
+  destruct (page_render _ _ _ _ _ _) as [r1 pg1]. injection H as <- _.
+  eexists [_; _]. cbn. auto.
+Qed.
+
+(* blocked, whatever DIRTY is *)
+Lemma blocked_request_weak : forall fuel rs c p input st ca,
+  c_first c = None -> pw_store p = Some (st, ca) -> getf st FLAG_TERMINATE = true ->
+  accepted_b input = true -> (reset_req c input = false \/ s_path st = []) ->
+  exists p' resp, request_persisted (S fuel) rs c p input = (p', resp)
+    /\ r_cont resp = false /\ r_exec resp = SOk
+    (* no function is called; the only ghost events are renderings *)
+    /\ pw_w p' = pw_w p
+    /\ (exists l, pw_log p' = l ++ pw_log p /\ forallb is_render l = true)
+    (* unless rendering panics, the stored session is what it was with DIRTY cleared, no code, no input *)
+    /\ ((exists n, r_flush resp = FPanic n /\ pw_store p' = pw_store p) \/
+        (pw_store p' = Some (blocked_snap (resetf st FLAG_DIRTY) ca) /\ r_flush resp <> FFuel
+         /\ forall n, r_flush resp <> FPanic n)).
+Proof.
+  intros fuel rs c p input st ca Hf Hs Ht Ha Hreset.
+  rewrite (request_persisted_prepared (S fuel) rs c p input st ca) by (try assumption; apply stale_terminated; exact Ht).
+  destruct (prep_code_cons c st) as (x & code & Hc).
+  assert (Hcode0 : s_code (v_st (e_v (prep_engine c st ca (pw_w p) (pw_log p) input))) = prep_code c st) by reflexivity.
+  unfold eng_exec_inner. cbv zeta. rewrite Hcode0, Hc.
+  rewrite run_terminate_blocks by exact Ht.
+  cbn [v_st vset_st]. change (getf (set_code (v_st (e_v (prep_engine c st ca (pw_w p) (pw_log p) input))) []) FLAG_TERMINATE)
+    with (getf st FLAG_TERMINATE). rewrite Ht.
+  unfold eng_flush. cbn [e_execd negb e_v eset_v e_exit e_exiting e_initd].
+  set (v0 := vset_st (e_v (prep_engine c st ca (pw_w p) (pw_log p) input))
+                     (set_code (v_st (e_v (prep_engine c st ca (pw_w p) (pw_log p) input))) [])).
+  assert (Ht0 : getf (v_st v0) FLAG_TERMINATE = true) by exact Ht.
+  destruct (vm_render (S fuel) rs (c_sep c) (s_lang (v_st v0)) v0) as [vr r] eqn:Hrender.
+  destruct (vm_render_terminated _ _ _ _ _ _ _ Ht0 Hrender) as (Hst & Hca & Hw & Hnf).
+  destruct (vm_render_terminated_log _ _ _ _ _ _ _ Ht0 Hrender) as (l & Hlog & Hl & Htaint).
+  change (e_exit (prep_engine c st ca (pw_w p) (pw_log p) input)) with (@nil N).
+  change (e_exiting (prep_engine c st ca (pw_w p) (pw_log p) input)) with false.
+  change (e_initd (prep_engine c st ca (pw_w p) (pw_log p) input)) with true.
+  cbn [len List.length N.of_nat]. rewrite andb_false_r. cbn [andb].
+  assert (Hlogp : exists l0, v_log vr = l0 ++ pw_log p /\ forallb is_render l0 = true) by (exists l; auto).
+  destruct r as [out|er|n|]; [| | |congruence].
+  - do 2 eexists. split; [reflexivity|]. cbn [r_cont r_exec r_flush pw_w pw_log pw_store].
+    split; [reflexivity|]. split; [reflexivity|]. split; [exact Hw|]. split; [exact Hlogp|].
+    right. unfold eng_finish. cbn [e_initd e_v eset_v]. rewrite Hst, Hca.
+    split; [reflexivity|]. split; [discriminate|]. intros n. discriminate.
+  - do 2 eexists. split; [reflexivity|]. cbn [r_cont r_exec r_flush pw_w pw_log pw_store].
+    split; [reflexivity|]. split; [reflexivity|]. split; [exact Hw|]. split; [exact Hlogp|].
+    right. unfold eng_finish. cbn [e_initd e_v eset_v]. rewrite Hst, Hca.
+    split; [reflexivity|]. split; [discriminate|]. intros n. discriminate.
+  - do 2 eexists. split; [reflexivity|]. cbn [r_cont r_exec r_flush pw_w pw_log pw_store].
+    split; [reflexivity|]. split; [reflexivity|]. split; [exact Hw|]. split; [exact Hlogp|].
+    left. exists n. rewrite Hs. auto.
+Qed.
+
+(* witness: aa sets TERMINATE and returns a value longer than the declared size; the LOAD fails *)
+Definition app_dirty : app :=
+  mkApp [nd "root" [IHalt; IInCmp (s2b "foo") (s2b "1")];
+         nd "foo" [ILoad (s2b "aa") 1; IHalt; IInCmp (s2b "_") (s2b "0")]; catch_node]
+        [(s2b "root", s2b "root"); (s2b "foo", s2b "foo"); (s2b "_catch", s2b "catch")]
+        [] [(s2b "aa", [fr "toolong" [6]])].
+Definition p_dirty : pworld := fst (requests 100 (app_rsrc app_dirty) cfg_term pw0 [[]; s2b "1"]).
+
+Lemma blocked_refuted_dirty :
+  exists rs c p input st ca,
+    c_first c = None /\ pw_store p = Some (st, ca)
+    /\ getf st FLAG_TERMINATE = true /\ getf st FLAG_DIRTY = true
+    /\ accepted_b input = true /\ reset_req c input = false
+    (* reachable from the empty store *)
+    /\ p = fst (requests 100 rs c (mkPw None [] [] false) [[]; s2b "1"])
+    /\ snd (request_persisted 100 rs c p input) = mkResp false SOk (s2b "foo") FOk
+    /\ pw_log (fst (request_persisted 100 rs c p input)) = EvRender (s2b "foo") 0 None :: pw_log p
+    (* and the request after that is blocked in the strict sense *)
+    /\ snd (request_persisted 100 rs c (fst (request_persisted 100 rs c p input)) input) = mkResp false SOk [] FOk.
+Proof.
+  exists (app_rsrc app_dirty), cfg_term, p_dirty, (s2b "0"), (store_st p_dirty), (store_ca p_dirty).
+  vm_compute. repeat split; reflexivity.
+Qed.
+
+(* once TERMINATE is in the stored session (DIRTY or not): the first request is blocked up to one
+   rendering, every later one strictly *)
+Lemma terminated_stays_blocked : forall fuel rs c p input st ca p' resp inputs,
+  c_first c = None -> pw_store p = Some (st, ca) -> getf st FLAG_TERMINATE = true ->
+  accepted_b input = true -> (reset_req c input = false \/ s_path st = []) ->
+  request_persisted (S fuel) rs c p input = (p', resp) -> (forall n, r_flush resp <> FPanic n) ->
+  Forall (fun i => accepted_b i = true /\ (reset_req c i = false \/ s_path st = [])) inputs -> inputs <> [] ->
+  r_cont resp = false /\ r_exec resp = SOk /\ pw_w p' = pw_w p
+  /\ requests (S fuel) rs c p' inputs
+     = (mkPw (Some (blocked_snap (resetf st FLAG_DIRTY) ca)) (pw_w p') (pw_log p') (pw_taint p'),
+        map (fun _ => mkResp false SOk [] FOk) inputs).
+Proof.
+  intros fuel rs c p input st ca p' resp inputs Hf Hs Ht Ha Hreset Hreq Hnp Hall Hne.
+  destruct (blocked_request_weak fuel rs c p input st ca Hf Hs Ht Ha Hreset)
+    as (p'' & resp' & Hreq' & Hc & Hx & Hw & _ & Hcases).
+  rewrite Hreq in Hreq'. injection Hreq' as <- <-.
+  split; [exact Hc|]. split; [exact Hx|]. split; [exact Hw|].
+  destruct Hcases as [(n & Hn & _)|(Hstore & _ & _)]; [exfalso; eapply Hnp; exact Hn|].
+  rewrite (blocked_until_cleared fuel rs c inputs p' (set_input_raw (set_code (resetf st FLAG_DIRTY) []) None) ca);
+    try assumption; try reflexivity.
+  - change (getf (resetf st FLAG_DIRTY) FLAG_TERMINATE = true).
+    rewrite getf_resetf_other by (vm_compute; discriminate). exact Ht.
+  - change (getf (resetf st FLAG_DIRTY) FLAG_DIRTY = false). apply getf_resetf_same.
+Qed.
